@@ -258,6 +258,8 @@ def mon_C17_twin(s):
     # conditions on failure would legitimately route a clean run differently
     for t in defn["tasks"]:
         for tr in t["next"]:
+            if tr["when"] == {"fn": "failed"} and tr["do"] == ["continue"]:
+                continue   # a failure path that only publishes: its traces must not survive a successful rerun
             if tr["when"] not in (None, {"fn": "succeeded"}):
                 return []
     seed = core.dumps(defn)
